@@ -278,7 +278,7 @@ class C14(vlib.Driver):
 
     def gen_ppo(self, tier, rng):
         cases = []
-        S = 24 if tier == "quick" else 100
+        S = 24 if tier == "quick" else 200
         # Box policies: inference-mode clipping / squash + scale
         for bname in ("sym", "asym", "perdim", "one", "halfinf", "inf"):
             for squash in (False, True):
@@ -286,7 +286,7 @@ class C14(vlib.Driver):
                     continue
                 for training in (False, True):
                     for single in (False, True):
-                        for rep in range(1 if tier == "quick" else 3):
+                        for rep in range(1 if tier == "quick" else 6):
                             B = 1 if single else rng.choice([2, 3])
                             d = len(self.BOXES[bname])
                             cases.append({"fam": "ppo_box", "box": bname, "squash": squash, "training": training, "single": single,
@@ -353,7 +353,7 @@ class C14(vlib.Driver):
                         if act is None and not training:
                             continue        # un-squashed policy without the training clamp: no bound is claimed
                         for single in (False, True):
-                            for rep in range(1 if tier == "quick" else 3):
+                            for rep in range(1 if tier == "quick" else 6):
                                 B = 1 if single else rng.choice([2, 3])
                                 dims = [len(self.BOXES[b]) for b in pair]
                                 eda = None
@@ -494,7 +494,7 @@ class C14(vlib.Driver):
                     for training in (False, True):
                         for single in (False, True):
                             B = 1 if single else rng.choice([2, 3])
-                            reps = 1 if tier == "quick" else 3
+                            reps = 1 if tier == "quick" else 5
                             for _ in range(reps):
                                 pre = [rng.choice(self.PRE[act]) for _ in box]
                                 noise = [[rng.choice([-16.0, -1.0, -0.25, 0.0, 0.5, 2.0, 16.0]) for _ in box] for _ in range(B)]
